@@ -82,6 +82,11 @@ func genC18(r *Rng, tier string, idx int) *Plan {
 		p.Ops = append(p.Ops, Op{ID: nid(), Kind: "nav", B: 0, F: b, Path: t}, Op{ID: nid(), Kind: "send", B: 0, F: b, Path: t, S: "own"},
 			Op{ID: nid(), Kind: "send", B: 0, F: a, Path: t, S: fmt.Sprintf("from-filter:%d", b)}, Op{ID: nid(), Kind: "send", B: 0, F: a, Path: t, S: "own"})
 	}
+	if r.Chance(0.5) {
+		// a refresh at one filter right after a code exchange at another (whatever an exchange leaves behind in the
+		// process must not reach the other filter's provider)
+		p.Ops = append(p.Ops, Op{ID: nid(), Kind: "refresh-after-other-login", B: 20, F: b, D: a, Path: t})
+	}
 	// per-filter limits: probe each filter's own session on both sides of its own limits
 	for i := 0; i < nf; i++ {
 		p.Ops = append(p.Ops, Op{ID: nid(), Kind: "limits", B: 2 + i, F: i, Path: t, D: r.Intn(2)})
@@ -117,6 +122,25 @@ func runC18(p *Plan) *Result {
 				a.Raw("xcb", op.B, op.F, cp+cbSep(cp)+"code="+qEsc(src.Code)+"&state="+qEsc(src.Param("state")), fmt.Sprintf("from-filter:%d", op.D))
 			case "limits":
 				c18Limits(w, a, op)
+			case "refresh-after-other-login":
+				fb := w.Filters[op.F]
+				if fb.IdP.Knobs.Refresh == "none" {
+					continue
+				}
+				old := fb.IdP.Knobs
+				fb.IdP.Knobs.IDTokenTTL, fb.IdP.Knobs.ExpiresIn, fb.IdP.Knobs.OmitExpiresIn = 60, 60, false
+				res := a.Nav("rl-login", op.B, op.F, op.Path, 6)
+				fb.IdP.Knobs = old
+				if res.Final == nil || res.Final.Class != "ok" {
+					continue
+				}
+				w.Advance(70 * time.Second)
+				a.Nav("rl-other-login", op.B+1, op.D, op.Path, 6)
+				rec := a.Raw("rl-refresh", op.B, op.F, op.Path, "own")
+				w.probe("refresh-after-another-filters-login")
+				if rec.Class != "ok" && len(rec.TokenReqs) > 0 && rec.TokenReqs[0].Status != 200 {
+					w.violate("C18", "refresh-fails-after-another-filters-exchange", fmt.Sprintf("check #%d: filter %s's refresh was answered %d by its own provider right after a code exchange at filter %s (%s)", rec.N, fb.Spec.Chain, rec.TokenReqs[0].Status, w.Filters[op.D].Spec.Chain, sortedProblems(rec.TokenReqs[0].Problems)))
+				}
 			case "par-logins":
 				a.Par(op.Par)
 				w.probe("concurrent-logins-at-different-filters")
